@@ -270,7 +270,9 @@ func (c consumption) apply(b buffer.Buffer) ([]byte, error) {
 		var out []byte
 		for {
 			if c.limit >= 0 && len(out) >= c.limit {
-				return out, nil
+				// chunk boundaries are the producer's business: compare
+				// the first limit bytes only
+				return out[:c.limit], nil
 			}
 			chunk, err := r.Read()
 			if err == io.EOF {
